@@ -445,3 +445,34 @@ m("x7-manual-endian-default-one", "C20", EN, "        #[derive(Copy, Clone, Eq, 
 m("x7-bitmap-arms-swapped", "C09,C05,C16", AB, "            if set {", "            if !set {", "R9.6.polarity")
 m("x7-bitmap-set-passes-false", "C09,C05,C16", AB, "self.set_reset_addr_range(start_addr, len, true);", "self.set_reset_addr_range(start_addr, len, false);", "R9.6.polarity")
 m("x7-bitmap-set-bit-clears", "C09", AB, "self.map[index >> 6].fetch_or(1 << (index & 63), Ordering::SeqCst);", "self.map[index >> 6].fetch_and(!(1 << (index & 63)), Ordering::SeqCst);", "R9.6.polarity", occ=0)
+
+# find_region spelt with checked_sub / prefix.last() (accepted since refactor round 5), each with one defect
+_FR_ORIG = """        let index = match self.regions.binary_search_by_key(&addr, |x| x.start_addr()) {
+            Ok(x) => Some(x),
+            // Within the closest region with starting address < addr
+            Err(x) if (x > 0 && addr <= self.regions[x - 1].last_addr()) => Some(x - 1),
+            _ => None,
+        };
+        index.map(|x| self.regions[x].as_ref())"""
+def _fr_sub(sub="1", cmp="<=", idx="prev"):
+    return f"""        let index = match self.regions.binary_search_by_key(&addr, |x| x.start_addr()) {{
+            Ok(x) => x,
+            Err(x) => x
+                .checked_sub({sub})
+                .filter(|&prev| addr {cmp} self.regions[{idx}].last_addr())?,
+        }};
+        Some(self.regions[index].as_ref())"""
+def _fr_last(cmp="<=", pick="last", rng="..x"):
+    return f"""        match self.regions.binary_search_by_key(&addr, |x| x.start_addr()) {{
+            Ok(x) => Some(self.regions[x].as_ref()),
+            Err(x) => self.regions[{rng}]
+                .{pick}()
+                .filter(|prev| addr {cmp} prev.last_addr())
+                .map(AsRef::as_ref),
+        }}"""
+m("x7-find-region-sub-strict", "C02", MM, _FR_ORIG, _fr_sub(cmp="<"), "?")
+m("x7-find-region-sub-two", "C02", MM, _FR_ORIG, _fr_sub(sub="2"), "?")
+m("x7-find-region-sub-tests-other", "C02", MM, _FR_ORIG, _fr_sub(idx="prev.saturating_sub(1)"), "?")
+m("x7-find-region-last-strict", "C02", MM, _FR_ORIG, _fr_last(cmp="<"), "?")
+m("x7-find-region-prefix-first", "C02", MM, _FR_ORIG, _fr_last(pick="first"), "?")
+m("x7-find-region-prefix-inclusive", "C02", MM, _FR_ORIG, _fr_last(rng="..=x.min(self.regions.len() - 1)"), "?")
